@@ -31,6 +31,18 @@ func (fr *frame) call(in ssa.Instruction, c *ssa.CallCommon, st *State, reach st
 			args = append(args, fr.val(a))
 		}
 		key := methodKey(c.Method)
+		{
+			// atcall assertions on a call through an interface: the method's parameter names denote the
+			// actual arguments ("this" is the receiver)
+			msig := c.Method.Type().(*types.Signature)
+			pn := []string{"this"}
+			pt := []types.Type{c.Value.Type()}
+			for q := 0; q < msig.Params().Len(); q++ {
+				pn = append(pn, msig.Params().At(q).Name())
+				pt = append(pt, msig.Params().At(q).Type())
+			}
+			fr.atCallAsserts(c.Method.Name(), shortKey(key), pn, pt, args, in, st, reach)
+		}
 		if rt, ok := recv.(Term); ok && rt.Sort == SAny {
 			fr.safety("nil", not(eq(rt.S, "anil")), reach, pos, "method call on nil interface")
 		}
@@ -65,6 +77,18 @@ func (fr *frame) call(in ssa.Instruction, c *ssa.CallCommon, st *State, reach st
 		return fr.staticCall(cl.Fn, cl.Bindings, in, c, args, st, reach)
 	}
 	if t, ok := v.(Term); ok && t.Sort == SInt {
+		// atcall assertions on a call through a function-valued variable, by the variable's name;
+		// the arguments are $0, $1, ...
+		if nm := valueName(c.Value); nm != "" {
+			sig := c.Signature()
+			var pn []string
+			var pt []types.Type
+			for q := 0; q < sig.Params().Len(); q++ {
+				pn = append(pn, fmt.Sprintf("$%d", q))
+				pt = append(pt, sig.Params().At(q).Type())
+			}
+			fr.atCallAsserts(nm, "", pn, pt, args, in, st, reach)
+		}
 		return fr.dynCall(t, c, args, st, reach, pos)
 	}
 	fc.unsupported("call through %T in %s", v, fr.fn.Name())
@@ -75,33 +99,14 @@ func (fr *frame) staticCall(f *ssa.Function, bindings []Val, in ssa.Instruction,
 	fc := fr.fc
 	key := fnKey(f)
 	pos := in.Pos()
-	if fr.top && fc.c != nil {
-		for _, ac := range fc.c.AtCalls {
-			if ac.Callee != f.Name() && ac.Callee != shortKey(key) {
-				continue
-			}
-			// assertion attached to this call site: the callee's parameter names denote the actual arguments
-			env := fc.contractEnv(fc.c, fr.fn, nil, st, fr.old)
-			env.fr = fr
-			blk := in.Block()
-			env.lookup = func(name string) (CVal, bool) { return fr.lookupVarAt(name, blk) }
-			env.lookupAddr = fr.lookupAddr
-			for k, p := range f.Params {
-				if k < len(args) {
-					if t, ok := args[k].(Term); ok {
-						env.bound[p.Name()] = CVal{t, p.Type()}
-					}
-				}
-			}
-			t, err := env.evalBool(ac.Clause.Expr)
-			if err != nil {
-				fc.unsupported("atcall %s %s: %v", ac.Callee, ac.Clause.Name, err)
-				continue
-			}
-			fc.atCallSeen[ac] = true
-			o := fc.oblig("assert", "atcall."+sanitizeName(ac.Callee)+"."+ac.Clause.Name, t.S, reach, pos, ac.Clause.Props)
-			o.Src = ac.Clause.Src
+	{
+		var pn []string
+		var pt []types.Type
+		for _, p := range f.Params {
+			pn = append(pn, p.Name())
+			pt = append(pt, p.Type())
 		}
+		fr.atCallAsserts(f.Name(), shortKey(key), pn, pt, args, in, st, reach)
 	}
 	if m, ok := libModels[key]; ok {
 		fc.trusted[key] = true
@@ -326,28 +331,8 @@ func (fr *frame) applyContract(ct *FuncContract, f *ssa.Function, sig *types.Sig
 		case *Closure:
 			return Term{strconv.Itoa(fc.e.funcTag(fnKey(x.Fn))), SInt}
 		case *VarArgSlice:
-			if t != nil {
-				if st, ok := t.Underlying().(*types.Slice); ok && !isByte(st.Elem()) {
-					es := fc.e.sortOf(st.Elem())
-					a := fmt.Sprintf("((as const %s) %s)", arr(SInt, es), fc.e.zero(es, st.Elem()).S)
-					okAll := true
-					for i, el := range x.Elems {
-						et, isT := el.(Term)
-						if !isT {
-							okAll = false
-							break
-						}
-						a = store(a, strconv.Itoa(i), et.S)
-					}
-					if okAll {
-						lit := fc.define("lit", Term{fmt.Sprintf("(mkslc %s 0 %d)", a, len(x.Elems)), slc(es)})
-						for i, el := range x.Elems {
-							// element view (also puts the terms lit[i] on the table for quantifier instantiation)
-							fc.fact(eq(fc.slcAt(lit, strconv.Itoa(i)).S, el.(Term).S))
-						}
-						return lit
-					}
-				}
+			if lit, ok := fc.sliceLiteral(x, t); ok {
+				return lit
 			}
 		}
 		return fc.fresh("arg", fc.e.sortOf(t))
@@ -715,8 +700,15 @@ func (e *Engine) dynCandidates(t types.Type) []*ssa.Function {
 	}
 	var out []*ssa.Function
 	for _, f := range e.funcs {
-		if f.Pkg == nil || f.Parent() != nil || f.Signature.Recv() != nil || f.Synthetic != "" {
+		if f.Pkg == nil || f.Signature.Recv() != nil || f.Synthetic != "" {
 			continue
+		}
+		if f.Parent() != nil {
+			// a closure is a candidate only when its contract says so (opt dyn-target): closures of hook
+			// types are called through the contract of their function type instead
+			if ct := e.specs.Funcs[fnKey(f)]; ct == nil || ct.Opts["dyn-target"] == "" {
+				continue
+			}
 		}
 		if !strings.HasPrefix(f.Pkg.Pkg.Path(), "github.com/google/badwolf") {
 			continue
@@ -1212,4 +1204,101 @@ func (fr *frame) ifaceDispatch(recv Term, c *ssa.CallCommon, args []Val, st *Sta
 		out = append(out, v)
 	}
 	return packVals(out), true
+}
+
+
+// atCallAsserts: the `atcall <callee> assert[...]` clauses of the function under verification that
+// name this callee become obligations at this call site; the callee's parameter names denote the
+// actual arguments.
+func (fr *frame) atCallAsserts(name, alt string, pnames []string, ptypes []types.Type, args []Val, in ssa.Instruction, st *State, reach string) {
+	fc := fr.fc
+	if fc.c == nil {
+		return
+	}
+	if !fr.top {
+		// also inside an inlined function literal of the function under verification
+		isOwn := false
+		for p := fr.fn.Parent(); p != nil; p = p.Parent() {
+			if p == fc.fn {
+				isOwn = true
+			}
+		}
+		if !isOwn {
+			return
+		}
+	}
+	for _, ac := range fc.c.AtCalls {
+		if ac.Callee != name && ac.Callee != alt {
+			continue
+		}
+		env := fc.contractEnv(fc.c, fr.fn, nil, st, fr.old)
+		env.fr = fr
+		blk := in.Block()
+		env.lookup = func(name string) (CVal, bool) { return fr.lookupVarAt(name, blk) }
+		env.lookupAddr = fr.lookupAddr
+		for k, p := range pnames {
+			if k < len(args) && p != "" && p != "_" {
+				if t, ok := args[k].(Term); ok {
+					env.bound[p] = CVal{t, ptypes[k]}
+				} else if cl, ok := args[k].(*Closure); ok {
+					env.bound[p] = CVal{Term{strconv.Itoa(fc.e.funcTag(fnKey(cl.Fn))), SInt}, ptypes[k]}
+				}
+			}
+		}
+		t, err := env.evalBool(ac.Clause.Expr)
+		if err != nil {
+			fc.unsupported("atcall %s %s: %v", ac.Callee, ac.Clause.Name, err)
+			continue
+		}
+		fc.atCallSeen[ac] = true
+		o := fc.oblig("assert", "atcall."+sanitizeName(ac.Callee)+"."+ac.Clause.Name, t.S, reach, in.Pos(), ac.Clause.Props)
+		o.Src = ac.Clause.Src
+	}
+}
+
+
+// valueName: the source name of the variable a function value is read from.
+func valueName(v ssa.Value) string {
+	switch x := v.(type) {
+	case *ssa.Parameter:
+		return x.Name()
+	case *ssa.FreeVar:
+		return x.Name()
+	case *ssa.UnOp:
+		switch y := x.X.(type) {
+		case *ssa.FreeVar:
+			return y.Name()
+		case *ssa.Alloc:
+			return y.Comment
+		}
+	}
+	return ""
+}
+
+
+// sliceLiteral: the slice value of a composite literal / variadic argument list whose elements are
+// all symbolic terms.
+func (fc *FnCtx) sliceLiteral(x *VarArgSlice, t types.Type) (Term, bool) {
+	if t == nil {
+		return Term{}, false
+	}
+	st, ok := t.Underlying().(*types.Slice)
+	if !ok || isByte(st.Elem()) {
+		return Term{}, false
+	}
+	es := fc.e.sortOf(st.Elem())
+	a := fmt.Sprintf("((as const %s) %s)", arr(SInt, es), fc.e.zero(es, st.Elem()).S)
+	for i, el := range x.Elems {
+		et, isT := el.(Term)
+		if !isT {
+			return Term{}, false
+		}
+		a = store(a, strconv.Itoa(i), et.S)
+	}
+	lit := fc.define("lit", Term{fmt.Sprintf("(mkslc %s 0 %d)", a, len(x.Elems)), slc(es)})
+	for i, el := range x.Elems {
+		// element view (also puts the terms lit[i] on the table for quantifier instantiation)
+		fc.fact(eq(fc.slcAt(lit, strconv.Itoa(i)).S, el.(Term).S))
+	}
+	return lit, true
 }
